@@ -78,7 +78,7 @@ def occurrences(line):
     delimiter and on the right by a delimiter (line includes its final newline)."""
     n = len(line)
     starts = [i for i in range(n) if line[i] in STARTC and (i == 0 or is_delim(line[i - 1]))]
-    ends = [j for j in range(1, n) if line[j - 1] in ENDC and is_delim(line[j])]
+    ends = [j for j in range(1, n + 1) if line[j - 1] in ENDC and (j == n or is_delim(line[j]))]   # end of text counts
     out = []
     for i in starts:
         for j in ends:
@@ -103,7 +103,7 @@ def classify(tok, line, i):
         a, b = host.split("::")
         na = len([g for g in a.split(":") if g])
         nb = len([g for g in b.split(":") if g]) + (1 if "." in b else 0)
-        if na >= 7 or nb >= 7 or (na + nb >= 7):
+        if na >= 7 or nb >= 7:
             return "ipv6-seven-groups-after-compression"
     if i > 0 and line[i - 1:i] == b"\n":
         return "multi-line-write"
@@ -318,10 +318,11 @@ def gen_scrub(ctx, add):
     for _ in range(500 * mul):
         a, k = address(rng)
         l, r = rng.choice(CLEAN_L), rng.choice(CLEAN_R)
-        line = L1(l + a + r + "\n")
+        nl = "" if rng.random() < 0.15 else "\n"          # Scrub is also called on texts without a final newline
+        line = L1(l + a + r + nl)
         case = "%s scrub %s" % (AREA, hx(line))
-        EXACT[case] = L1(l) + SCRUBBED + L1(r + "\n")
-        add(case, "scrub-1addr-" + re.sub(r"-\d-\d", "", k))
+        EXACT[case] = L1(l) + SCRUBBED + L1(r + nl)
+        add(case, "scrub-1addr-" + re.sub(r"-\d-\d", "", k) + ("" if nl else "-noeol"))
     # every "::" placement exhaustively, bare / bracketed / bracketed with port, two contexts
     for i in range(0, 8):
         for j in range(0, 8 - i):
@@ -464,6 +465,18 @@ def gen_write(ctx, add, groups_out):
         emit([st], "write-whole", gid)
         for _ in range(2):
             emit(splits_random(rng, st), "write-random-split", gid)
+    # long lines (a pending partial line of a few hundred bytes must stay buffered)
+    for q in range(12 * mul):
+        gid += 1
+        parts = []
+        while sum(map(len, parts)) < rng.choice([90, 150, 260, 400]):
+            parts.append(rng.choice([address(rng)[0], address(rng)[0], rng.choice(FILL)]))
+            parts.append(rng.choice(SEPS[:8]))
+        st = L1("".join(parts)) + rng.choice([b"\n", b"\n", b"\ntail 1.2.3.4", b""])
+        emit([st], "write-long-whole", gid)
+        emit([st[i:i + 1] for i in range(len(st))], "write-long-bytewise", gid)
+        for _ in range(3):
+            emit(splits_random(rng, st), "write-long-random-split", gid)
 
 
 def gen_conc(ctx, add):
@@ -550,12 +563,19 @@ def run(ctx):
     gen_write(ctx, add, groups)
     model, impl = ctx.correspond(exe, lines, kinds, label="write", prop=prop, key_of=key_of, crosscheck=6)
     res = dict(zip(lines, impl))
+    mod = dict(zip(lines, model))
     for gid, cases in groups.items():
         outs = {res[c] for c in cases}
-        if len(outs) > 1:
+        if len(outs) > 1 and not any(prop(c, res[c], mod[c]) for c in cases):
+            # (when a case of the group already fails the property the cause is reported there)
             a = cases[0]
             b = next(c for c in cases if res[c] != res[a])
-            ctx.violation("multi-line-write", "output depends on how the stream is split into Write calls: `%s` -> %s but `%s` -> %s"
+            # the deviating case is the one the per-line model disagrees with; if one of its writes carries
+            # more than one line, that is the cause
+            dev = next((c for c in (a, b) if res[c] != mod[c]), a)
+            multi = any(b"\n" in unhex(x[1:] or "-")[:-1] for x in dev.split(" ")[2].split(","))
+            ctx.violation("multi-line-write" if multi else "split-dependent-output",
+                          "output depends on how the stream is split into Write calls: `%s` -> %s but `%s` -> %s"
                           % (a[:300], res[a][:200], b[:300], res[b][:200]), dict(label="write-split", case=a, other=b, impl=res[a], impl_other=res[b]))
     lines, kinds = [], []
     gen_conc(ctx, add)
